@@ -162,6 +162,8 @@ namespace net
       gen_lits(r, op, 3);
     else if (name == "sweep")
       op.a = {static_cast<long>(r.below(16)), static_cast<long>(r.below(128))};
+    else if (name == "cbound") // guard, variable, lower/upper/both, numerator, denominator, strict
+      op.a = {static_cast<long>(r.below(8)), static_cast<long>(r.chance(1, 2) ? 1000 + r.below(3) : r.below(12)), static_cast<long>(r.chance(1, 6) ? 2 : r.below(2)), r.range(-8, 8), static_cast<long>(r.chance(3, 4) ? 0 : r.below(4)), static_cast<long>(r.chance(1, 5) ? 1 : 0), static_cast<long>(r.below(4))};
     return op;
   }
 
@@ -277,6 +279,15 @@ namespace net
       if (use_rdl)
         search.add("rq", 25);
     }
+    // "client bound" runs: a simulated client of the LRA theory (the executor's protocol) decides literals of its own and imposes
+    // bounds directly, outside propagation; conflicts found there are handed to theory::backtrack_analyze_and_backjump.
+    // (Own stream: histories of the other runs are unchanged.)
+    const bool client = use_lra && prop != "C20" && Rng(seed).derive("client").chance(1, prop == "C09" || prop == "C11" ? 2 : 3);
+    if (client)
+    {
+      create.add("guard", 8);
+      search.add("cbound", 30);
+    }
     // "ladder" runs: bursts of several constraints over the same pair of time points (or the same linear expression)
     // with different constants, related to each other by short clauses over the literals just created; assumptions
     // then prefer recent literals. Reaches: one edge/bound tightened more than once within a decision level, an older
@@ -361,6 +372,9 @@ namespace net
       const char *mk = use_lra ? "lrel" : (use_idl ? "idist" : "rdist");
       for (int i = 0, n = static_cast<int>(swarm.range(2, 3)); i < n; ++i)
         ops.push_back(gen_op(g, var, dlk));
+      if (client)
+        for (int i = 0; i < 3; ++i)
+          ops.push_back(gen_op(g, "guard", dlk));
       const bool cycle_draw = swarm.chance(1, 2);
       if (world == "cycle" && use_lra)
         use_lra = false, use_rdl = true, rp.th_mask = 4;
@@ -449,10 +463,25 @@ namespace net
           c.a[0] = 3, c.a.push_back(static_cast<long>(g.below(2))), c.a.push_back(static_cast<long>(g.below(12)));
         ops.push_back(c);
       }
+      if (client && use_lra)
+      { // a client's bounds meet bounds that hold for good: some of the relations become root-level facts
+        for (int i = 0, n = static_cast<int>(g.range(1, 3)); i < n; ++i)
+        {
+          Op f;
+          f.name = "clause";
+          f.a = {1, static_cast<long>(g.chance(2, 3) ? 1 : 0), 2000 + static_cast<long>(g.below(12))};
+          ops.push_back(f);
+        }
+        Op pr;
+        pr.name = "prop";
+        ops.push_back(pr);
+      }
       Weights walk;
       walk.add("assume", 50), walk.add("pop", 25), walk.add("popto", 4), walk.add("check", 8), walk.add("next", 4);
       if (prop == "C12")
         walk.add(use_idl ? "iq" : "rq", use_lra ? 0 : 20);
+      if (client && use_lra)
+        walk.add("cbound", 20);
       for (int i = 0, n = static_cast<int>(use_lra ? swarm.range(12, 40) : swarm.range(30, 80)); i < n; ++i)
       {
         ops.push_back(gen_op(g, walk.pick(g), dlk));
